@@ -113,7 +113,8 @@ func (tree *trie) Get(key []byte) (value uint32, ok bool) {
 		}
 	}
 
-	if tree.labelVec.GetLabel(pos) == labelTerminator && !tree.hasChildVec.IsSet(pos) {
+	// 0xff is the terminator only if it's the first label of a node which has more labels, else it is a real label.
+	if tree.labelVec.GetLabel(pos) == labelTerminator && !tree.hasChildVec.IsSet(pos) && !tree.isEndOfNode(pos) {
 		if ok = tree.suffixVec.CheckSuffix(key, depth, pos); ok {
 			valPos := tree.valuePos(pos)
 			value = tree.values.Get(valPos)
